@@ -243,9 +243,10 @@ func NewQueueBlockingLimiterFromConfig(
 		maxBacklogSize:      uint64(config.MaxBacklogSize),
 		maxBacklogTimeout:   config.MaxBacklogTimeout,
 		backlogEvictDoneCtx: config.BacklogEvictDoneCtx,
+		ordering:            config.Ordering,
 		backlog: &queue{
 			list:     list.New(),
-			ordering: OrderingFIFO,
+			ordering: config.Ordering,
 		},
 	}
 
